@@ -264,6 +264,41 @@ def run(ctx):
             else:
                 ctx.ok(R_tag, {"content": content, "compression": sorted(comps), "alpha_type": sorted(ats)})
 
+    # mip chains: every loop / take bound derived from mipmaps_count() reaches the last level (count + 1 images, levels 0..=count)
+    R_mip = ctx.rule("C16.mip-level-bounds-reach-last-level", "every `1..B` loop and `.take(T)` whose bound is built from mipmaps_count() has B = T = count + 1 for every count 0..15 (the 16-slot cap aside)", floor=6)
+    from .c10 import _ival, _NoEval
+    for f in blp.fn_list:
+        if f.kind == "Closure" or not f.hir or "::tests::" in f.path:
+            continue
+        cands = []
+        for x in hirq.walk(f.hir["body"]):
+            if x.get("k") == "for":
+                for y in hirq.walk(x["iter"]):
+                    if y.get("k") == "struct" and y["res"].get("def", "").endswith("range::Range"):
+                        fl = dict((a, b) for a, b in y["fields"])
+                        if "mipmaps_count" in hirq.render(fl.get("end")) and hirq.lit_int(fl.get("start")) == 1:
+                            cands.append(("loop 1..B", fl["end"], x["ln"]))
+                    if y.get("k") == "call" and re.search(r"RangeInclusive(::<\w+>)?::new$", y.get("fn") or "") and "mipmaps_count" in hirq.render(y["args"][1]) and hirq.lit_int(y["args"][0]) == 1:
+                        cands.append(("loop 1..=B", {"k": "bin", "op": "+", "l": y["args"][1], "r": {"k": "lit", "v": {"int": 1}}}, x["ln"]))
+            if x.get("k") == "mcall" and x["m"] == "take" and x.get("args") and "mipmaps_count" in hirq.render(x["args"][0]):
+                cands.append(("take(T)", x["args"][0], x["ln"]))
+        for kind, expr, ln in cands:
+            ctx.saw_fn(f)
+            bad = None
+            try:
+                for cnt in range(0, 16):
+                    got = _ival(expr, {"__leaf__": (lambda r_, cnt=cnt: cnt if "mipmaps_count" in r_ else None)}, {})
+                    if got != cnt + 1 and bad is None:
+                        bad = (cnt, got)
+            except _NoEval as e:
+                ctx.note_unarmed(R_mip, "%s:%d" % (norm(f.path), ln), "bound not evaluable: %s" % e)
+                continue
+            if bad:
+                ctx.bad(R_mip, "%s|mip-bound" % norm(f.path).split("::")[-1], "%s:%d" % (f.file, ln), "%s with bound `%s`: for mipmaps_count = %d it is %d, the chain has %d images" % (kind, hirq.render(expr)[:60], bad[0], bad[1], bad[0] + 1),
+                        "the smallest level(s) are never parsed / written: the parsed texture has fewer images than were encoded and the chain stops short of 1×1")
+            else:
+                ctx.ok(R_mip, {"fn": norm(f.path), "kind": kind, "bound": hirq.render(expr)[:60]})
+
     # dispatch coverage
     content = next((a for a in blp.items["adts"] if a["path"].endswith("::BlpContent") and a["k"] == "enum"), None)
     variants = [v["name"] for v in content["variants"]] if content else []
